@@ -346,6 +346,8 @@ func CrashLine(stderr string) string {
 	return strings.TrimSpace(m)
 }
 
+var handlerPanicRe = regexp.MustCompile(`(?m)^.*http: panic serving.*$`)
+
 var numRe = regexp.MustCompile(`0x[0-9a-f]+|\d+`)
 
 // Normalize strips numbers so that the same crash gives the same key.
@@ -369,6 +371,11 @@ func DefaultClassify(spec Spec, c *ev.Check, o *Outcome) {
 			c.Violation("handler-panic:"+Normalize(afterColon(line)), "an HTTP handler panicked: "+line, replayOf(o))
 		}
 		return
+	}
+	// A handler panic swallowed by net/http is a violation however the child ended afterwards
+	// (a panic while holding a lock typically ends in a hang and the watchdog).
+	if m := handlerPanicRe.FindString(o.Stderr); m != "" {
+		c.Violation("handler-panic:"+Normalize(afterColon(m)), "an HTTP handler panicked (the child later ended abnormally: exit "+fmt.Sprint(o.ExitCode)+", timed out "+fmt.Sprint(o.TimedOut)+"): "+strings.TrimSpace(m), replayOf(o))
 	}
 	if spec.ClassifyDeath != nil && spec.ClassifyDeath(c, o) {
 		return
